@@ -54,6 +54,10 @@ def gen_case(rng: random.Random, big=False) -> dict:
             e["id"] = f"ep{rng.randint(0, max(0, n - 1))}"  # duplicate id
         if rng.random() < 0.06:
             e["ts"] = None
+        if rng.random() < 0.07:
+            # a memory without words (empty / blank text), embedded from other words: a hit like any other
+            e["vec"] = "enc:" + txt
+            e["text"] = rng.choice(["", "  "])
         if rng.random() < 0.3:
             e["vec_store"] = rng.choice(["f64", "f64", "list"])
         if rng.random() < 0.08:
